@@ -282,8 +282,12 @@ def _run_prepare(desc):
         stages = [("training", a), ("test", b)]
         un = [int(x) for x in np.unique(a.plate_ids[~a.observation_mask])]
         if un:
-            stages.append(("training after reveal", reveal_plates(a, un[:1])))
-            feats.append("reveal_after_prepare")
+            rv = common.impl_call(reveal_plates, a, un[:1])     # a plate with a NaN / only zeros is refused by reveal_plates: no such stage then
+            if isinstance(rv, ImplError):
+                feats.append("reveal_refused")
+            else:
+                stages.append(("training after reveal", rv))
+                feats.append("reveal_after_prepare")
         pred = None
         maps = [(n, _name_ids(s)) for n, s in stages]
         for i, (n1, m1) in enumerate(maps):
